@@ -90,6 +90,22 @@ theorem shorthand_is_include (comps : List (Str × Str)) (tag file : Str) (attrs
     resolveTagsNode comps (.elem tag attrs kids) = .elem (S "template") (attrs ++ [(S "include", file)]) kids := by
   simp [resolveTagsNode, h]
 
+/-- (6) an include that is a member of a `v-if` chain is still an include: once the chain has selected it, a `<template include>`
+    member (a component tag that carries the chain directive is rewritten to one, by (5)) is evaluated exactly as `evalTemplate`
+    evaluates an include reached by the main loop - the component is rendered with the tag's attributes as props -/
+theorem conditional_include_is_include (W : World) (f : Nat) (ctx : Ctx) (st : St) (attrs : List Attr) (kids : List Node)
+    (hfor : getAttr attrs (S "v-for") = []) (hinc : hasAttr attrs (S "include") = true) :
+    evalAsElement W (f + 1) ctx st (S "template") attrs kids = evalTemplate W f ctx st attrs kids := by
+  simp [evalAsElement, hfor, hinc]
+
+/-- ... and what it renders is the included component: the include path of `evalTemplate` -/
+theorem conditional_include_renders_component (W : World) (f : Nat) (ctx : Ctx) (st : St) (attrs : List Attr) (kids : List Node)
+    (hfor : getAttr attrs (S "v-for") = []) (hinc : hasAttr attrs (S "include") = true) :
+    evalAsElement W (f + 2) ctx st (S "template") attrs kids =
+      bindE (evalAttributes W.P st.stack attrs) (fun av => evalInclude W f ctx st av.1 kids (decodeVars W.jsonDecode av.2)) := by
+  rw [conditional_include_is_include W (f + 1) ctx st attrs kids hfor hinc]
+  simp [evalTemplate, hinc]
+
 /-! non-vacuity -/
 example : Stack.lookup goodCfg (componentStack { scopes := [[(S "outer", .str (S "O")), (S "a", .str (S "A-OUTER"))]], root := .nil }
     [(S "a", .str (S "PROP")), (S "b", .int .int 2)] [(S "b", .str (S "FM"))]) (S "b") = .ok (some (.str (S "FM"))) := by rfl
